@@ -1,9 +1,12 @@
 """C19  The listing agrees with the image."""
+import os
 import re
 
-from ..common import require, concretize, notrace
+from ..common import require, concretize, notrace, BUILD
 from ..obligations import Ob
-from ..symasm import assemble
+from ..symasm import assemble, write_aux_file
+
+AUX = os.path.join(BUILD, "aux", "c19")
 from .. import cli_harness as CH
 
 P = "pdpverif.props.c19:"
@@ -145,8 +148,8 @@ def h_labels3(params, vals, ctx):
     n, k, b = concretize(n), concretize(k), concretize(b)
     vals = {"B": b, "N": n, "K": k}
     late = params.get("late")
-    files = [("/w/a.mac", ("" if late else ".link {B}\n") + "fa: .byte 101, 1\n.blkb {N}\nga: .byte 111\n"),
-             ("/w/b.mac", "fb: .byte 102\n.blkb {K}\ngb: .byte 112, 2\n"),
+    files = [("/w/a.mac", ("" if late else ".link {B}\n") + "fa: .byte 101, 1\n.blkb {N}\n.asciz \"ab\"\nga: .byte 111\n"),
+             ("/w/b.mac", "vv = 5\nfb: .byte 102\n.blkb {K}\n.even\nvv\n.ascii \"xyz\"\ngb: .byte 112, 2\n"),
              ("/w/c.mac", "fc: .byte 103, 3\ngc: .byte 113\n" + (".link {B}\n" if late else ""))]
     o = assemble(files, vals, route=ctx.route)
     ctx.observe_outcome(o)
@@ -162,8 +165,52 @@ def h_labels3(params, vals, ctx):
         if list(lst) != ["/w/a.mac", "/w/b.mac", "/w/c.mac"]:
             return False
         for fn, marks in (("/w/a.mac", {"fa": 0o101, "ga": 0o111}), ("/w/b.mac", {"fb": 0o102, "gb": 0o112}), ("/w/c.mac", {"fc": 0o103, "gc": 0o113})):
+            entries = dict((nm, v) for v, nm in lst[fn] if nm != "vv")
+            if sorted(entries) != sorted(marks) or len(lst[fn]) != 2 + (fn == "/w/b.mac"):
+                return False
+            for nm, marker in marks.items():
+                off = entries[nm] - b
+                if not (0 <= off < len(code)) or code[off] != marker:
+                    return False
+        return True
+
+
+def h_labels_many(params, vals, ctx):
+    """Twelve compilation units (linked files, one of them including two more): every symbol is listed under its own file."""
+    b = vals["B"]
+    require(b in (0, 512, 1000))
+    b = concretize(b)
+    vals = {"B": b}
+    write_aux_file("c19", "inc_a.mac", "ia: .byte 201.\n")
+    write_aux_file("c19", "inc_b.mac", "ib: .byte 202.\n")
+    n = params["n"]
+    files = []
+    for i in range(n):
+        text = f"f{i}: .byte {i + 1}.\n"
+        if i == 0:
+            text = ".link {B}\n" + text
+        if i == 1:
+            text += '.include "inc_a.mac"\n.include "inc_b.mac"\n'
+        files.append((os.path.join(AUX, f"u{i}.mac"), text))
+    o = assemble(files, vals, route=ctx.route)
+    ctx.observe_outcome(o)
+    ctx.reach(o.status == "ok")
+    if o.status != "ok" or o.errors:
+        return False
+    with notrace():
+        try:
+            lst = parse_listing(o.comp.generate_listing())
+        except ValueError:
+            return False
+        code = bytes(o.code)
+        want = {os.path.join(AUX, f"u{i}.mac"): {f"f{i}": i + 1} for i in range(n)}
+        want[os.path.join(AUX, "inc_a.mac")] = {"ia": 201}
+        want[os.path.join(AUX, "inc_b.mac")] = {"ib": 202}
+        if sorted(lst) != sorted(want):
+            return False
+        for fn, marks in want.items():
             entries = dict((nm, v) for v, nm in lst[fn])
-            if sorted(entries) != sorted(marks) or len(lst[fn]) != 2:
+            if sorted(entries) != sorted(marks):
                 return False
             for nm, marker in marks.items():
                 off = entries[nm] - b
@@ -259,6 +306,7 @@ def obligations(tier, seed):
                   vars={"V1": "int", "V2": "int", "V3": "int"}, timeout=600))
     for late in (False, True):
         obs.append(Ob(oid="labels/three-files" + ("/late-link" if late else ""), harness=P + "h_labels3", params={"late": late}, vars={"B": "int", "N": "int", "K": "int"}, timeout=900))
+    obs.append(Ob(oid="labels/twelve-units", harness=P + "h_labels_many", params={"n": 12}, vars={"B": "int"}, timeout=600))
     if tier == "thorough":
         obs.append(Ob(oid="order/4", harness=P + "h_order", params={"names": ["d", "b", "a", "c"], "span": 1}, vars={f"V{i}": "int" for i in range(1, 5)}, timeout=3000))
     obs.append(Ob(oid="labels", harness=P + "h_labels", params={"dmax": 3 if tier == "thorough" else 2}, vars={"B": "int", "N": "int", "K": "int"},
